@@ -272,7 +272,6 @@ func VerifControlBuilt(ctl *Control) bool {
 	return ctl != nil && proxy.VerifManagerOK(ctl.pm) && visitor.VerifManagerOK(ctl.vm) && ctl.doneCh != nil && ctl.sessionCtx != nil
 }
 
-
 // Run starts the session worker and brings up the configured proxies and
 // visitors; GracefulClose stops them and closes the session.
 //
